@@ -34,6 +34,10 @@ func synText(t []string, rep int) (string, []string) {
 			r = '\n'
 		case "CR":
 			r = '\r'
+		case "S":
+			r = ' '
+		case "T":
+			r = '\t'
 		case "X":
 			r = synBad[rep%len(synBad)]
 		}
